@@ -41,7 +41,7 @@ stream the answer is one data stream preceded by at most one header stream. -/
 theorem serveStream_spec (cfg : Cfg) (info : MethodInfo) (req : Request) (next : Option Stream) :
     ∃ rs, serveStream cfg info req next = .resp rs true ∧ (next.isSome = true → Shape rs) := by
   unfold serveStream
-  by_cases hp : paramsMatch info req = true
+  by_cases hp : bindOk cfg info req = true
   · simp only [hp, Bool.not_true, Bool.false_eq_true, if_false]
     cases cfg.stream req.method req.batch.cells with
     | error ty => exact ⟨_, rfl, fun _ => .inl ⟨_, rfl, rfl⟩⟩
@@ -265,14 +265,14 @@ theorem next_request_served_correctly (cfg : Cfg) (ops : List ClientOp) (op : Cl
   simp
 
 /-- **refused_stream_call_drained** (the repaired defect F02). A stream call refused because
-its parameters do not match the declared schema, or by the protocol-version gate, is answered
+its parameters cannot be bound (schema mismatch, no row 0, bad embedded payload), or by the protocol-version gate, is answered
 with one error stream AND its input stream is consumed. -/
 theorem refused_stream_call_drained (cfg : Cfg) (s : Stream) (next : Option Stream)
     (req : Request) (info : MethodInfo)
     (hr : readRequestStream s = .ok req) (hp : isShmPointer req.batch = false)
     (hd : req.method ≠ mDescribe) (ht : req.method ≠ mTransportOptions)
     (hl : lookup cfg req.method = some info) (hk : info.kind ≠ .unary)
-    (hbad : paramsMatch info req = false ∨ refused cfg req = true) :
+    (hbad : bindOk cfg info req = false ∨ refused cfg req = true) :
     ∃ ty, serveOne cfg s next = .resp [errStream ty req.requestId] true := by
   have hsk : isStreamKind info.kind = true := by
     cases hkk : info.kind <;> simp_all [isStreamKind]
@@ -281,7 +281,7 @@ theorem refused_stream_call_drained (cfg : Cfg) (s : Stream) (next : Option Stre
   unfold dispatch
   by_cases hg : refused cfg req = true
   · exact ⟨"ProtocolVersionError", by simp [hg, hsk]⟩
-  · have hpm : paramsMatch info req = false := by
+  · have hpm : bindOk cfg info req = false := by
       rcases hbad with h | h
       · exact h
       · exact absurd h hg
@@ -332,7 +332,7 @@ def streamH (m : Bytes) (cells : List Bytes) : InitOutcome :=
 
 def cfg : Cfg :=
   { methods := methods, pvGate := some (fun v => v = some [0x31]), unary := unaryH,
-    stream := streamH, canCast := fun _ _ _ => false }
+    stream := streamH, bindFails := fun _ _ => false, canCast := fun _ _ _ => false }
 
 def rq (m : Bytes) (id : UInt8) (sch : Schema) (cell : UInt8) (extra : Meta := []) : Stream :=
   ⟨sch, [⟨1, [(kMethod, m), (kRequestVersion, protocolVersion), (kRequestId, [id]),
